@@ -62,7 +62,9 @@ type c20Ctl struct {
 }
 
 type c20Stream struct {
-	cut chan struct{}
+	cut     chan struct{}
+	created chan struct{} // etcd confirmed this watch
+	ended   chan struct{} // the stream is over (cut by the harness, cancelled, or closed by etcd, e.g. compacted)
 }
 
 func c20NewCtl() *c20Ctl {
@@ -116,11 +118,12 @@ func (w *c20Watcher) Watch(ctx context.Context, key string, opts ...clientv3.OpO
 	}
 	ictx, cancel := context.WithCancel(ctx)
 	in := w.Watcher.Watch(ictx, key, append(append([]clientv3.OpOption{}, opts...), clientv3.WithCreatedNotify())...)
-	s := &c20Stream{cut: make(chan struct{})}
+	s := &c20Stream{cut: make(chan struct{}), created: make(chan struct{}, 1), ended: make(chan struct{})}
 	w.ctl.stream <- s
 	go func() {
 		defer cancel()
 		defer close(out)
+		defer close(s.ended)
 		for {
 			select {
 			case resp, ok := <-in:
@@ -128,7 +131,10 @@ func (w *c20Watcher) Watch(ctx context.Context, key string, opts ...clientv3.OpO
 					return
 				}
 				if resp.Created && len(resp.Events) == 0 && resp.Err() == nil {
-					w.ctl.created <- struct{}{}
+					select {
+					case s.created <- struct{}{}:
+					default:
+					}
 					continue
 				}
 				select {
@@ -174,6 +180,7 @@ type c20Flavour struct {
 	sentinel2 c20Entry
 	start    func(ctx context.Context, cli *clientv3.Client) (lookup func(c20Entry) string, all func() map[string]string, stop func(), err error)
 	prefix   string
+	bulk     func(i int) c20Entry // i-th lease of the large population (sorts before the universe)
 }
 
 func c20PartitionFlavour() c20Flavour {
@@ -185,6 +192,9 @@ func c20PartitionFlavour() c20Flavour {
 	}
 	f.sentinel = c20Entry{EtcdKey: partitionLeaseKey("vf-sentinel", 0), Name: "vf-sentinel:0", topic: "vf-sentinel", part: 0}
 	f.sentinel2 = c20Entry{EtcdKey: partitionLeaseKey("vf-sentinel", 1), Name: "vf-sentinel:1", topic: "vf-sentinel", part: 1}
+	f.bulk = func(i int) c20Entry {
+		return c20Entry{EtcdKey: partitionLeaseKey("bulk", int32(i)), Name: fmt.Sprintf("bulk:%d", i), topic: "bulk", part: int32(i)}
+	}
 	f.start = func(ctx context.Context, cli *clientv3.Client) (func(c20Entry) string, func() map[string]string, func(), error) {
 		r, err := NewPartitionRouter(ctx, cli, c20Quiet)
 		if err != nil {
@@ -209,6 +219,9 @@ func c20GroupFlavour() c20Flavour {
 	}
 	f.sentinel = c20Entry{EtcdKey: groupLeasePrefix + "/vf-sentinel", Name: "vf-sentinel"}
 	f.sentinel2 = c20Entry{EtcdKey: groupLeasePrefix + "/vf-sentinel2", Name: "vf-sentinel2"}
+	f.bulk = func(i int) c20Entry {
+		return c20Entry{EtcdKey: fmt.Sprintf("%s/bulk-%04d", groupLeasePrefix, i), Name: fmt.Sprintf("bulk-%04d", i)}
+	}
 	f.start = func(ctx context.Context, cli *clientv3.Client) (func(c20Entry) string, func() map[string]string, func(), error) {
 		r, err := NewGroupRouter(ctx, cli, c20Quiet)
 		if err != nil {
@@ -270,8 +283,11 @@ type c20Case struct {
 	current *c20Stream
 	pendingWatch bool
 	watcherDead  bool // the router's watch goroutine exited although the router was not stopped
-	failReload   bool
-	failedReload bool
+	failReloads   int
+	failedReload  bool
+	betweenDone   bool
+	compacted     bool
+	streamRefused bool
 	lease       clientv3.Lease
 	leases      []clientv3.LeaseID
 	multi       bool // some revision changed several lease keys
@@ -310,6 +326,9 @@ func (c *c20Case) applyOp(phase string, op c20Op, brokers []string) error {
 	ctx, cancel := context.WithTimeout(context.Background(), 30*time.Second)
 	defer cancel()
 	switch op.Kind {
+	case "bulk":
+		// one of the first keys (in key order) of the large population changes hands
+		return c.write(phase, c.f.bulk(op.Items[0][0]), brokers[op.Items[0][1]])
 	case "one":
 		return c.write(phase, c.f.universe[op.Items[0][0]], brokers[op.Items[0][1]])
 	case "txn", "lease-put":
@@ -411,18 +430,28 @@ func (c *c20Case) letGo() error {
 	}
 }
 
-func (c *c20Case) waitCreated() error {
+// waitCreated waits for the watch the router just issued: true = etcd confirmed it, false = the
+// stream ended without ever being established (e.g. its start revision has been compacted).
+func (c *c20Case) waitCreated() (bool, error) {
+	var st *c20Stream
 	select {
-	case <-c.ctl.created:
+	case st = <-c.ctl.stream:
 	case <-time.After(60 * time.Second):
-		return fmt.Errorf("%w: etcd never confirmed the watch", errC20Inconclusive)
+		return false, fmt.Errorf("%w: no stream handle", errC20Inconclusive)
 	}
 	select {
-	case c.current = <-c.ctl.stream:
+	case <-st.created:
+		c.current = st
+		return true, nil
+	case <-st.ended:
+		select {
+		case <-st.created: // both happened: confirmed first, then closed right away
+		default:
+		}
+		return false, nil
 	case <-time.After(60 * time.Second):
-		return fmt.Errorf("%w: no stream handle", errC20Inconclusive)
+		return false, fmt.Errorf("%w: etcd neither confirmed nor ended the watch", errC20Inconclusive)
 	}
-	return nil
 }
 
 func (c *c20Case) etcdContent() (map[string]string, error) {
@@ -496,8 +525,11 @@ type c20Plan struct {
 	Outage   []c20Op // after the cut, before the reload
 	Gap2     []c20Op // between reload and watch restart
 	Live2    []c20Op
-	FailReload  bool // the reload read after the first cut fails once
-	FailReload2 bool
+	FailReloads  int  // this many reload reads after the first cut fail (0-2)
+	FailReloads2 int
+	Compact      bool // etcd compacts its history during the first outage
+	Bulk         int  // > 0: that many extra leases exist from the start (more than one page of 1000)
+	Between      []c20Op // writes placed between two reads of ONE load, if the router loads in pages
 	SecondCut bool
 	Outage2  []c20Op
 	Live3    []c20Op
@@ -514,8 +546,45 @@ func (c *c20Case) run(p c20Plan) (string, error) {
 		}
 		return nil
 	}
+	if p.Bulk > 0 {
+		// a large lease population, put once (100 keys per transaction)
+		for lo := 0; lo < p.Bulk; lo += 100 {
+			var ops []clientv3.Op
+			for i := lo; i < lo+100 && i < p.Bulk; i++ {
+				ops = append(ops, clientv3.OpPut(c.f.bulk(i).EtcdKey, "0"))
+			}
+			ctx, cancel := context.WithTimeout(context.Background(), 30*time.Second)
+			_, err := c.admin.Txn(ctx).Then(ops...).Commit()
+			cancel()
+			if err != nil {
+				return "", fmt.Errorf("%w: bulk put: %v", errC20Inconclusive, err)
+			}
+		}
+		c.hist = append(c.hist, c20Write{Phase: "pre/bulk", Key: fmt.Sprintf("%d leases", p.Bulk), Val: "0"})
+	}
 	if err := apply("pre", p.Pre); err != nil {
 		return "", err
+	}
+	// onRead handles one read the router parked at. reads counts the reads of the current load:
+	// a SECOND read of one load means the table is loaded page by page, and the plan's
+	// "between pages" writes are placed there. A read can be made to fail (etcd unavailable).
+	reads := 0
+	onRead := func(phase string) error {
+		reads++
+		if reads == 2 && len(p.Between) > 0 && !c.betweenDone {
+			c.betweenDone = true
+			if err := apply(phase+"/between-two-reads-of-one-load", p.Between); err != nil {
+				return err
+			}
+		}
+		if c.failReloads > 0 {
+			c.failReloads--
+			c.failedReload = true
+			c.ctl.failNextGet.Store(true)
+			c.hist = append(c.hist, c20Write{Phase: phase + "/reload-read-fails", Key: "-", Val: ""})
+			reads = 0
+		}
+		return c.letGo()
 	}
 	type started struct {
 		lookup func(c20Entry) string
@@ -542,7 +611,7 @@ func (c *c20Case) run(p c20Plan) (string, error) {
 				c.pendingWatch = true
 				continue
 			}
-			if err := c.letGo(); err != nil {
+			if err := onRead("start"); err != nil {
 				return "", err
 			}
 		case <-time.After(60 * time.Second):
@@ -556,72 +625,96 @@ func (c *c20Case) run(p c20Plan) (string, error) {
 	// reconnect: let reads through (writes of the "outage" phase were already applied) until
 	// the router parks at Watch; apply the gap writes there; let the watch start; live writes.
 	reconnect := func(gap, live []c20Op, gapName, liveName string) error {
-		for !c.pendingWatch && !c.watcherDead {
-			got, err := c.waitArrive()
-			if err != nil {
-				return err
+		gapDone := false
+		for {
+			for !c.pendingWatch && !c.watcherDead {
+				got, err := c.waitArrive()
+				if err != nil {
+					return err
+				}
+				if got == "dead" {
+					c.watcherDead = true
+					break
+				}
+				if got == "watch" {
+					c.pendingWatch = true
+					break
+				}
+				if err := onRead(gapName); err != nil {
+					return err
+				}
 			}
-			if got == "dead" {
-				c.watcherDead = true
-				break
+			c.pendingWatch = false
+			reads = 0
+			if c.watcherDead {
+				// nobody is watching any more; the remaining history still happens in etcd
+				if !gapDone {
+					if err := apply(gapName, gap); err != nil {
+						return err
+					}
+				}
+				return apply(liveName, live)
 			}
-			if got == "watch" {
-				c.pendingWatch = true
-				break
-			}
-			if c.failReload {
-				c.failReload = false
-				c.failedReload = true
-				c.ctl.failNextGet.Store(true)
-				c.hist = append(c.hist, c20Write{Phase: gapName + "/reload-read-fails-once", Key: "-", Val: ""})
+			if !gapDone {
+				gapDone = true
+				if err := apply(gapName, gap); err != nil {
+					return err
+				}
 			}
 			if err := c.letGo(); err != nil {
 				return err
 			}
-		}
-		c.pendingWatch = false
-		if c.watcherDead {
-			// nobody is watching any more; the remaining history still happens in etcd
-			if err := apply(gapName, gap); err != nil {
+			ok, err := c.waitCreated()
+			if err != nil {
 				return err
 			}
-			return apply(liveName, live)
-		}
-		if err := apply(gapName, gap); err != nil {
-			return err
-		}
-		if err := c.letGo(); err != nil {
-			return err
-		}
-		if err := c.waitCreated(); err != nil {
-			return err
+			if ok {
+				break
+			}
+			// etcd closed the stream before it was established (compacted start revision): the
+			// router goes round its reconnect loop again
+			c.streamRefused = true
 		}
 		return apply(liveName, live)
 	}
 	if err := reconnect(p.Gap1, p.Live1, "gap", "live"); err != nil {
 		return "", err
 	}
-	cut := func(outage, gap, live []c20Op, n string, failReload bool) error {
+	cut := func(outage, gap, live []c20Op, n string, failReloads int, compact bool) error {
 		if c.watcherDead {
 			if err := apply("outage"+n, outage); err != nil {
 				return err
 			}
 			return reconnect(gap, live, "gap"+n, "live"+n)
 		}
-		c.failReload = failReload
+		c.failReloads = failReloads
 		close(c.current.cut)
 		if err := apply("outage"+n, outage); err != nil {
 			return err
+		}
+		if compact {
+			// etcd compacts its history up to now: the revision the router would resume from is gone
+			ctx, cancel := context.WithTimeout(context.Background(), 30*time.Second)
+			resp, err := c.admin.Get(ctx, "/vf-rev")
+			if err == nil {
+				_, err = c.admin.Compact(ctx, resp.Header.Revision)
+			}
+			cancel()
+			if err != nil {
+				return fmt.Errorf("%w: compact: %v", errC20Inconclusive, err)
+			}
+			c.compacted = true
+			c.hist = append(c.hist, c20Write{Phase: "outage" + n + "/etcd-compacted", Key: "-", Val: ""})
 		}
 		// the router sleeps 1 s (real time), then reloads and re-watches
 		return reconnect(gap, live, "gap"+n, "live"+n)
 	}
 	if p.Cut {
-		if err := cut(p.Outage, p.Gap2, p.Live2, "2", p.FailReload); err != nil {
+		if err := cut(p.Outage, p.Gap2, p.Live2, "2", p.FailReloads, p.Compact); err != nil {
 			return "", err
 		}
 		if p.SecondCut {
-			if err := cut(p.Outage2, nil, p.Live3, "3", p.FailReload2); err != nil {
+			if err := cut(p.Outage2, nil, p.Live3, "3", p.FailReloads2, false); err != nil {
 				return "", err
 			}
 		}
@@ -630,37 +723,60 @@ func (c *c20Case) run(p c20Plan) (string, error) {
 	// sentinel A is written and we wait until the router has TAKEN the response carrying it;
 	// then sentinel B, same wait. The router takes a response only after it has completely
 	// handled the previous one, so by then everything up to and including A is applied.
-	waitTaken := func(key string) error {
+	// waitTaken: true = the router took the response carrying key; false = the current stream
+	// ended under us (etcd closed it after confirming it, e.g. compacted start revision).
+	waitTaken := func(key string) (bool, error) {
 		deadline := time.After(60 * time.Second)
 		for {
 			select {
 			case keys := <-c.ctl.delivered:
 				for _, k := range keys {
 					if k == key {
-						return nil
+						return true, nil
 					}
 				}
+			case <-c.current.ended:
+				return false, nil
 			case <-deadline:
-				return fmt.Errorf("%w: the router did not take the watch response carrying %s from an established watch", errC20Inconclusive, key)
+				return false, fmt.Errorf("%w: the router did not take the watch response carrying %s from an established watch", errC20Inconclusive, key)
 			}
 		}
 	}
-	if err := c.write("sentinel", c.f.sentinel, "S"); err != nil {
-		return "", err
-	}
 	prefix := ""
-	if c.watcherDead {
-		// no goroutine of this router runs its watch loop any more although the router was not
-		// stopped: nothing will ever apply the sentinel (or any later lease change)
-		prefix = "the router's watcher goroutine exited after a watch-stream closure (router not stopped); "
-	} else {
-		if err := waitTaken(c.f.sentinel.EtcdKey); err != nil {
+	for attempt := 0; ; attempt++ {
+		if c.watcherDead {
+			// no goroutine of this router runs its watch loop any more although the router was not
+			// stopped: nothing will ever apply the sentinel (or any later lease change)
+			prefix = "the router's watcher goroutine exited after a watch-stream closure (router not stopped); "
+			if err := c.write("sentinel", c.f.sentinel, "S"); err != nil {
+				return "", err
+			}
+			break
+		}
+		if attempt >= 6 {
+			return "", fmt.Errorf("%w: the watch stream kept ending", errC20Inconclusive)
+		}
+		if err := c.write("sentinel", c.f.sentinel, "S"); err != nil {
 			return "", err
 		}
-		if err := c.write("sentinel2", c.f.sentinel2, "S2"); err != nil {
+		ok, err := waitTaken(c.f.sentinel.EtcdKey)
+		if err != nil {
 			return "", err
 		}
-		if err := waitTaken(c.f.sentinel2.EtcdKey); err != nil {
+		if ok {
+			if err := c.write("sentinel2", c.f.sentinel2, "S2"); err != nil {
+				return "", err
+			}
+			if ok, err = waitTaken(c.f.sentinel2.EtcdKey); err != nil {
+				return "", err
+			}
+		}
+		if ok {
+			break
+		}
+		// the stream ended on its own: the router goes through its reconnect path once more
+		c.streamRefused = true
+		if err := reconnect(nil, nil, "gap-after-refusal", "live-after-refusal"); err != nil {
 			return "", err
 		}
 	}
@@ -746,18 +862,37 @@ func c20Property(t *testing.T, leg string, f c20Flavour) {
 		p.Pre = c20Writes(rt, n, "pre", 4)
 		p.Gap1 = c20Writes(rt, n, "gap1", 2)
 		p.Live1 = c20Writes(rt, n, "live1", 4)
+		// 1 case in 4: more than one page (1000) of leases exists; if the router reads the table in
+		// several reads, some of the first keys change hands between two of them
+		if rapid.IntRange(0, 3).Draw(rt, "bulk") == 2 {
+			p.Bulk = 1001 + rapid.IntRange(0, 40).Draw(rt, "bulkExtra")
+			for i, k := 0, rapid.IntRange(1, 2).Draw(rt, "betweenN"); i < k; i++ {
+				p.Between = append(p.Between, c20Op{Kind: "bulk", Items: [][2]int{{rapid.IntRange(0, 3).Draw(rt, "bulkKey"), rapid.IntRange(0, 3).Draw(rt, "bulkVal")}}})
+			}
+		}
 		// a cut costs 1 s of real sleep inside the router: ration them (about 1 case in 5)
 		p.Cut = rapid.IntRange(0, 5).Draw(rt, "cut") == 3
 		if p.Cut {
 			p.Outage = c20Writes(rt, n, "outage", 3)
 			p.Gap2 = c20Writes(rt, n, "gap2", 2)
 			p.Live2 = c20Writes(rt, n, "live2", 3)
-			p.FailReload = rapid.IntRange(0, 2).Draw(rt, "failReload") == 1
+			p.Compact = rapid.Bool().Draw(rt, "compact")
+			if p.Compact {
+				// compaction is interesting together with reload reads that fail and with several
+				// changes during the outage
+				p.FailReloads = rapid.SampledFrom([]int{0, 1, 2, 2, 2}).Draw(rt, "failReloads")
+				p.Outage = append(p.Outage, c20Writes(rt, n, "outageMore", 3)...)
+				for len(p.Outage) < 2 {
+					p.Outage = append(p.Outage, c20One(rapid.IntRange(0, n-1).Draw(rt, "outageKey"), rapid.IntRange(0, 3).Draw(rt, "outageVal")))
+				}
+			} else {
+				p.FailReloads = rapid.SampledFrom([]int{0, 0, 1, 1, 2}).Draw(rt, "failReloads")
+			}
 			p.SecondCut = rapid.IntRange(0, 5).Draw(rt, "cut2") == 3
 			if p.SecondCut {
 				p.Outage2 = c20Writes(rt, n, "outage2", 2)
 				p.Live3 = c20Writes(rt, n, "live3", 2)
-				p.FailReload2 = rapid.Bool().Draw(rt, "failReload2")
+				p.FailReloads2 = rapid.IntRange(0, 1).Draw(rt, "failReloads2")
 			}
 		}
 		if known && (len(p.Gap1) > 0 || len(p.Gap2) > 0) {
@@ -812,8 +947,21 @@ func c20Property(t *testing.T, leg string, f c20Flavour) {
 			st.Class("second-cut")
 		}
 		if c.failedReload {
-			st.Class("reload-read-failed-once-after-a-cut")
+			st.Class("reload-read-failed-after-a-cut")
 			nt = true
+		}
+		if p.Bulk > 0 {
+			st.Class("more-than-1000-leases")
+		}
+		if c.betweenDone {
+			st.Class("write-between-two-reads-of-one-load(paged load)")
+		}
+		if c.compacted {
+			st.Class("etcd-compacted-during-outage")
+			nt = true
+		}
+		if c.streamRefused {
+			st.Class("resumed-watch-refused(compacted)")
 		}
 		if touchedLoaded {
 			st.Class("watched-change-of-a-loaded-route")
